@@ -3107,9 +3107,11 @@ TSQuery *ts_query_new(
       // done when that loses nothing: the wildcard carries no capture (it would be
       // added after the captures of its children, out of document order, and not at
       // all when the first child is optional) and no negated field, and the child
-      // that takes its place is not optional.
+      // that takes its place is not optional. A supertype step carries the wildcard
+      // symbol too, but it tests the node's supertypes and must be matched.
       if (
-        step->symbol == WILDCARD_SYMBOL && step->depth == 0 && !step->field &&
+        step->symbol == WILDCARD_SYMBOL && !step->supertype_symbol &&
+        step->depth == 0 && !step->field &&
         step->capture_ids[0] == NONE && !step->negated_field_list_id
       ) {
         QueryStep *second_step = array_get(&self->steps, start_step_index + 1);
